@@ -42,8 +42,8 @@ def feed(ep, kind, tag, chunks=None, peer=0, **item):
     return s
 
 
-def write(g, kind, tag, ep=None, inst=1, target=None, sync=False, bad="", raw=False):
-    s = {"op": "write", "g": g, "kind": kind, "tag": tag, "sync": sync, "bad": bad, "raw": raw}
+def write(g, kind, tag, ep=None, inst=1, target=None, sync=False, bad="", raw=False, foreign=False):
+    s = {"op": "write", "g": g, "kind": kind, "tag": tag, "sync": sync, "bad": bad, "raw": raw, "foreign": foreign}
     if ep is not None:
         s.update({"target": "ep", "ep": ep, "inst": inst})
     if target:
@@ -154,6 +154,18 @@ def fam_events(rng, n, thorough=False):
             eps = [{"kind": "tcp_server"}]
         steps.append({"op": "quiesce", "ms": 300})
         out.append({"name": "events/sender_clocks_30s_apart_%s" % kind, "conf": conf(inkey=KEY), "endpoints": eps, "steps": steps})
+    # what the node remembers about a channel outlives the channel: with stream requests enabled an ArduPilot vehicle is heard
+    # twice on channel 0, which then fails and is replaced; the node lives on past the 30 s and 60 s ticks of the stream-request
+    # cleaner (another vehicle keeps talking on channel 1). Nothing may arrive for the closed channel after its close event.
+    t = Tags(960000 + 1000 * len(out))
+    steps = opens(2) + [feed(0, "hb", t.next(), sys=1, comp=1, autopilot=3), {"op": "sleep", "ms": 300},
+                        feed(0, "hb", t.next(), sys=1, comp=1, autopilot=3), {"op": "sleep", "ms": 300},
+                        {"op": "read_err", "ep": 0}, {"op": "wait_close", "ep": 0, "n": 1}, {"op": "wait_open", "ep": 0, "n": 2}]
+    for j in range(61):
+        steps.append(feed(1, "hb", t.next(), sys=2, comp=1, autopilot=3))
+        steps.append({"op": "sleep", "ms": 1000})
+    steps.append({"op": "quiesce", "ms": 500})
+    out.append({"name": "events/stream_request_table_outlives_a_closed_channel", "conf": conf(sr_enable=True), "endpoints": customs(2), "steps": steps})
     return out
 
 
@@ -305,6 +317,16 @@ def fam_fanout(rng, n, thorough=False):
         steps.append({"op": "quiesce", "ms": 600})
         out.append({"name": "fanout/steady_stream_longer_than_write_timeout_%s" % kind, "conf": conf(write_ms=400, reconnect_ms=100),
                     "endpoints": [{"kind": kind}], "steps": steps})
+    # a router whose dialect is smaller than the traffic it forwards: already encoded frames of a message id the node's dialect
+    # does not contain (and, in the second scenario, a node without any dialect) go out like any other forwarded frame
+    for dialect in ["common", "none"]:
+        t = Tags(18800 + (50 if dialect == "none" else 0))
+        steps = opens(3)
+        for j in range(12):
+            kind = ["FrameAll", "FrameTo", "FrameExcept"][j % 3]
+            steps.append(write(1 + j % 2, kind, t.next(), ep=(j % 3) if kind != "FrameAll" else None, foreign=(j % 4 != 3 or dialect == "none"), sync=(j % 5 == 0)))
+        steps.append({"op": "quiesce", "ms": 800})
+        out.append({"name": "fanout/forwarded_frames_of_ids_the_dialect_lacks_%s" % dialect, "conf": conf(dialect=dialect), "endpoints": customs(3), "steps": steps})
     # a backlog behind a transport write that fails (plain error, deadline exceeded, a net timeout, unexpected EOF, closed pipe),
     # then the transport works again: what reaches the wire is still in submission order
     for j, err in enumerate(["", "deadline", "net_timeout", "eof", "closed_pipe", "net_error", "conn_refused"]):
@@ -440,6 +462,12 @@ def fam_close(rng, n):
         out.append({"name": "close/odd_configuration_%d" % j, "conf": conf(expect_init="any", **kw),
                     "endpoints": [{"kind": "tcp_server"}, {"kind": "udp_server"}, {"kind": "custom"}],
                     "steps": [{"op": "sleep", "ms": 20}, {"op": "close", "from": "main"}, {"op": "wait_closed"}]})
+    # a broadcast endpoint whose BroadcastAddress has an odd port part (accepted today: the port is not validated): whatever
+    # Initialize answers, nothing stays bound or running after a failure - and after Close
+    for j, bp in enumerate(["abc", "", "0", "70000", "-1"]):
+        out.append({"name": "close/odd_broadcast_port_%d" % j, "conf": conf(expect_init="any"),
+                    "endpoints": [{"kind": "tcp_server"}, {"kind": "udp_broadcast", "bcast_port": bp}, {"kind": "custom"}],
+                    "steps": [{"op": "sleep", "ms": 20}, {"op": "close", "from": "main"}, {"op": "wait_closed"}]})
     # Initialize fails at an extra last endpoint (busy port), then it is called again on the same Node value without it
     for stopped in (False, True):
         t = Tags(49600)
@@ -534,6 +562,20 @@ def fam_stall(rng, positions):
                 steps.append(write(1, "MsgAll", t.next(), sync=True))
             steps.append({"op": "quiesce", "ms": 1500})
             out.append({"name": "stall/unencodable_%s_v%d_at_%d" % (bad, v, pos), "conf": conf(version=v), "endpoints": customs(2), "steps": steps})
+    # a stall long enough for hundreds of items to be discarded at the full queue (400 writes behind a blocked one), then the
+    # whole backlog fails when the transport is let go (write deadlines expiring one after the other), then the link works
+    # again: later writes reach the wire, or the channel is reported closed
+    t = Tags(67000)
+    steps = opens(2) + [write(1, "MsgAll", t.next(), sync=True), {"op": "twrite_mode", "ep": 0, "mode": "block", "at": 1}]
+    for j in range(400):
+        steps.append(write(1, "MsgAll", t.next()))
+    steps += [{"op": "wait_writes"}, {"op": "sleep", "ms": 100}, {"op": "twrite_mode", "ep": 0, "mode": "failn", "at": 66, "err": "deadline"},
+              {"op": "sleep", "ms": 200}]
+    for j in range(20):
+        steps.append(write(1, "MsgAll", t.next(), sync=True))
+        steps.append({"op": "sleep", "ms": 2})
+    steps.append({"op": "quiesce", "ms": 1500})
+    out.append({"name": "stall/overflowed_backlog_fails_then_the_link_recovers", "conf": conf(), "endpoints": customs(2), "steps": steps})
     # many consecutive failures (12 and 130 unencodable items / failing transport writes), then valid writes
     for v, kind, nfail in [(2, "id_outside", 12), (1, "v1_big", 12), (2, "failn", 12), (2, "failn", 130), (2, "id_outside", 130)]:
         t = Tags(68000 + 100 * v + (50 if kind == "failn" else 0) + 3 * nfail)
@@ -660,6 +702,16 @@ def fam_faults(rng, thorough=False):
                           {"op": "listener_mode", "ep": 0, "mode": "refuse"}, {"op": "read_err", "ep": 0, "peer": -1},
                           {"op": "wait_close", "ep": 0, "n": 1}, {"op": "wait_open", "ep": 0, "n": 2}, {"op": "sleep", "ms": 20},
                           feed(0, "valid", 73901, peer=2), {"op": "quiesce", "ms": 400}]})
+    # a name with two addresses, the first of which refuses (nothing listens on 127.0.0.3): the server is reachable under the
+    # configured address all the time - connected at once, and again one reconnect delay after a drop, when the name lists a
+    # dead address first and the second host (127.0.0.2) after it
+    out.append({"name": "faults/tcp_client_name_with_two_addresses_first_refuses", "conf": conf(reconnect_ms=100),
+                "endpoints": [{"kind": "tcp_client", "host": "verif-two.test", "dns": "127.0.0.3,127.0.0.1"}],
+                "steps": [{"op": "wait_open", "ep": 0, "n": 1}, {"op": "sleep", "ms": 30}, feed(0, "valid", 73951, peer=1),
+                          {"op": "dns_point", "mode": "127.0.0.3,127.0.0.2"},
+                          {"op": "listener_mode", "ep": 0, "mode": "refuse"}, {"op": "read_err", "ep": 0, "peer": -1},
+                          {"op": "wait_close", "ep": 0, "n": 1}, {"op": "wait_open", "ep": 0, "n": 2}, {"op": "sleep", "ms": 20},
+                          feed(0, "valid", 73952, peer=2), {"op": "quiesce", "ms": 400}]})
     # a long outage: connection attempts keep failing for several times the dial timeout, then the server comes back
     for rd in ([300] if not thorough else [200, 300, 500]):
         out.append({"name": "faults/tcp_client_long_outage_%d" % rd, "conf": conf(reconnect_ms=100, read_ms=rd),
@@ -820,6 +872,17 @@ def fam_auto(rng, n, thorough=False):
         steps.append({"op": "quiesce", "ms": 500})
     out.append({"name": "auto/sr_due_heartbeats_across_a_cleaner_tick", "conf": conf(sr_enable=True, mute_wire=True, sr_events_only=True),
                 "endpoints": customs(4), "steps": steps})
+    # more senders than one channel can have: 65025 (every system / component pair, part of the environment: muted) on channel
+    # 0, then 700 on channel 1 - each of those is new to the node and gets its requests and its event (wire muted)
+    t = Tags(99000)
+    bulk = [{"ep": 0, "item": {"kind": "hb", "tag": 1, "sys": 1 + i // 255, "comp": 1 + i % 255, "autopilot": 3, "mute": True}} for i in range(255 * 255)]
+    steps = opens(2) + [{"op": "burst", "items": bulk}, {"op": "quiesce", "ms": 3000}]
+    tracked = [(1, 1 + i // 250, 1 + i % 250) for i in range(700)]
+    for c0 in range(0, len(tracked), 100):
+        steps.append({"op": "burst", "items": [{"ep": ep, "item": {"kind": "hb", "tag": t.next(), "sys": sy, "comp": co, "autopilot": 3}} for ep, sy, co in tracked[c0:c0 + 100]]})
+        steps.append({"op": "quiesce", "ms": 1000})
+    out.append({"name": "auto/sr_more_senders_than_one_channel_can_have", "conf": conf(sr_enable=True, mute_wire=True, sr_events_only=True),
+                "endpoints": customs(2), "steps": steps})
     # stream requests: histories of heartbeats from many sources interleaved with other traffic
     for j in range(n):
         t = Tags(90000 + 1000 * j)
